@@ -1,5 +1,6 @@
 import PydraModel.Argv.AssemblyLemmas
 import PydraModel.Argv.ParseLemmas
+import PydraModel.Argv.LowerLemmas
 /-
 C22 — Shell argument vector follows the documented field semantics.
 
@@ -167,6 +168,84 @@ theorem C22_scalar_plain (env : Env) (f : Field) (a : Argstr) (x : Scalar)
   rw [fieldArgs_spec env f a _ h]
   simp [Spec.fieldArgs, Spec.scalarArgs, hb, ht]
 
+/-! ### the extended model (`Argv/ModelX.lean`): formatter=, allowed_values, readonly, bool on a File-union,
+conversions / format specs, outargs with a path_template, values with braces -/
+
+/-- PARTIAL (same three exclusions as `C22_commandArgs_partial`, on the lowered definition): once
+    `shell.define` accepts the definition, the values pass `allowed_values` / template resolution / the
+    mandatory rule (`prepare`) and every field is lowered (`lowerField`: formatter called with its documented
+    arguments, bool on a File-union dropped, NOTHING on a readonly field, resolved output path, value
+    re-parsed as format text), the argument vector is executable ++ documented arguments of the lowered
+    fields in documented order ++ append_args, for any formatter functions `F` and any `format()` results `xenv`. -/
+theorem C22_extended_partial (F : FormatterFn) (xenv : Env) (cd : Str) (exe app : List Str)
+    (fxs : List FieldX) (vs : List ValueX) (filled : List Int)
+    (pairs : List (FieldX × ValueX)) (low : List (Field × Value))
+    (hdef : definePositions (fxs.map (·.base.position)) = .ok filled)
+    (hprep : prepare cd fxs vs = .ok pairs)
+    (hlow : mapE (fun p => lowerField F (inputsOf pairs) p.1 p.2) pairs = .ok low)
+    (hpos : (low.map (·.1)).map (·.position) = fxs.map (·.base.position))
+    (hsafe : ∀ t ∈ (triples (low.map (·.1)) filled (low.map (·.2))).filter Triple.live,
+        ∃ a, t.1.argstr = some a ∧ SafeField (envX (inputsOf pairs) xenv) t.1 a t.2.2)
+    (h26 : NoImplicitBelowExplicit (triples (low.map (·.1)) filled (low.map (·.2)))) :
+    runDefX F xenv cd exe fxs vs app
+      = .ok (Spec.commandArgsWith (envX (inputsOf pairs) xenv) exe (low.map (·.1)) (low.map (·.2)) app) :=
+  runDefX_eq_spec F xenv cd exe app fxs vs filled pairs low hdef hprep hlow hpos hsafe h26
+
+/-- FULL: lowering never touches a position (so `hpos` above only needs the lengths to agree) -/
+theorem C22_lower_position (F : FormatterFn) (inputs : List (Str × ValueX)) (fx : FieldX) (v : ValueX)
+    (r : Field × Value) (h : lowerField F inputs fx v = .ok r) : r.1.position = fx.base.position :=
+  lowerField_position F inputs fx v r h
+
+/-- FULL (C22's omission clause): a `bool` on a File-union field contributes nothing -/
+theorem C22_omit_fileunion_bool (F : FormatterFn) (inputs : List (Str × ValueX)) (fx : FieldX) (b : Bool)
+    (h : fx.x.fileUnion = true) : lowerField F inputs fx (.v (.one (.bool b))) = .ok (fx.base, .unset) :=
+  lower_fileUnion_bool F inputs fx b h
+
+/-- FULL: what is passed to a `formatter`: per parameter name, the field / the values dict / that input's
+    value (an error when it is not a set input) -/
+theorem C22_formatter_args (fx : FieldX) (inputs : List (Str × ValueX)) (names : List Str) (args : List FArg)
+    (h : formatterArgs fx inputs names = .ok args) :
+    args.length = names.length ∧ ∀ i (hi : i < names.length) (hi' : i < args.length),
+      (names[i] = "field".toList → args[i] = .field fx)
+      ∧ (names[i] ≠ "field".toList → names[i] = "inputs".toList → args[i] = .inputs inputs)
+      ∧ (names[i] ≠ "field".toList → names[i] ≠ "inputs".toList →
+          ∃ v, lookupX inputs names[i] = some v ∧ args[i] = .val v) :=
+  formatterArgs_spec fx inputs names args h
+
+/-- FULL: … and where its result lands: stripped, double blanks squeezed, re-tokenised by `split_cmd` as
+    the field's whole contribution at the field's position (nothing when empty), for ANY function `F` -/
+theorem C22_formatter_lands (F : FormatterFn) (env : Env) (inputs : List (Str × ValueX)) (fx : FieldX) (v : ValueX)
+    (names : List Str) (args : List FArg) (hf : fx.x.formatter = some names)
+    (hd : droppedX fx v = false) (hro : fx.x.readonly = false) (ha : formatterArgs fx inputs names = .ok args) :
+    ∃ lf a, lowerField F inputs fx v = .ok (lf, .one (.str (squeeze (F fx.base.name args))))
+      ∧ lf.argstr = some a ∧ lf.position = fx.base.position
+      ∧ fieldArgs env lf a (.one (.str (squeeze (F fx.base.name args))))
+          = (if (squeeze (F fx.base.name args)).isEmpty then .ok [] else splitCmd (squeeze (F fx.base.name args))) :=
+  ⟨_, _, lower_formatter F inputs fx v names args hf hd hro ha, rfl, rfl, formatter_lands env fx.base _⟩
+
+/-- FULL: a value given to a `readonly` field is refused; left unset it takes part with `str(attrs.NOTHING)` (falsy) -/
+theorem C22_readonly (F : FormatterFn) (inputs : List (Str × ValueX)) (fx : FieldX) (s : Str)
+    (hro : fx.x.readonly = true) (hfo : fx.x.formatter = none) (ha : fx.base.argstr.isSome = true) :
+    lowerField F inputs fx (.v (.one (.str s))) = .error .readonlyGiven
+    ∧ lowerField F inputs fx .nothing = .ok (fx.base, .one nothingScalar) :=
+  ⟨lower_readonly_given F inputs fx s hro ha, lower_readonly_nothing F inputs fx hfo ha⟩
+
+/-- FULL: an outarg left at `True` holds the path `PathTemplate.resolve` computes for its `path_template` -/
+theorem C22_outarg_template (cd : Str) (all : List (Str × PathTemplate.Val)) (fx : FieldX) (t : TemplateX) (p : Str)
+    (ht : fx.x.template = some t)
+    (hr : PathTemplate.resolve cd ⟨t.tmpl, all, t.keep, false⟩ .template = .ok (.one p)) :
+    resolveOne cd all fx (.v (.one (.bool true))) = .ok (.v (.one (.path p))) :=
+  resolveOne_template cd all fx t p ht hr
+
+/-- CONSERVATIVITY (field level): a base field with brace-free value text is lowered to itself -/
+theorem C22_lower_base (F : FormatterFn) (inputs : List (Str × ValueX)) (f : Field) (v : Value)
+    (hb : match v with
+      | .unset => True
+      | .one x => hasBrace x.render = false
+      | .many xs => (∀ x ∈ xs, hasBrace x.render = false) ∧ hasBrace (joinWith f.sep (xs.map Scalar.render)) = false) :
+    lowerField F inputs ⟨f, {}⟩ (.v v) = .ok (f, if (Bound.mk f none v).live then v else .unset) :=
+  lower_base F inputs f v hb
+
 /-! ### witnesses -/
 
 def mkPlain (raw : String) : Argstr := ⟨raw.toList, false, [.lit raw.toList]⟩
@@ -268,6 +347,19 @@ example : parseArgstr "-g {x:.2f} {y!r}...".toList
     = .ok ⟨"-g {x:.2f} {y!r}...".toList, true, [.lit "-g ".toList, .ref "x:.2f".toList, .lit " ".toList, .ref "y!r".toList]⟩ := by
   decide
 example : TextOK "--c={c} -x".toList := by decide
+
+/-- the extended model on a definition with a formatter (uninterpreted: here a concrete one), a File-union
+    bool, a readonly aggregate and an outarg whose template refers to an input -/
+def fxS : FieldX := ⟨⟨"s".toList, false, false, none, none, [' ']⟩, { formatter := some ["field".toList, "s".toList] }⟩
+def fxU : FieldX := ⟨⟨"u".toList, false, false, some (mkPlain "-u"), none, [' ']⟩, { fileUnion := true }⟩
+def fxR : FieldX := ⟨⟨"r".toList, false, false, some ⟨"--r={s}".toList, false, [.lit "--r=".toList, .ref "s".toList]⟩, some (-1), [' ']⟩, { readonly := true }⟩
+def fxO : FieldX := ⟨⟨"o".toList, false, false, some (mkPlain "-o"), none, [' ']⟩, { fileUnion := true, template := some ⟨"{s}_out.txt".toList, true⟩ }⟩
+def demoF : FormatterFn := fun name args =>
+  "  --F ".toList ++ name ++ "  ".toList ++ (match args[1]? with | some (FArg.val v) => renderX v | _ => [])
+example : runDefX demoF (fun _ => none) "/job".toList ["exe".toList] [fxS, fxU, fxR, fxO]
+      [.v (sv "S"), .v (.one (.bool true)), .nothing, .v (.one (.bool true))] []
+    = .ok (["exe", "--F", "s", "S", "-o", "/job/S_out.txt", "--r=S"].map String.toList) := by decide
+example : runDefX demoF (fun _ => none) "/job".toList ["exe".toList] [fxR] [.v (sv "given")] [] = .error .readonlyGiven := by decide
 
 /-- the docstring example of `position_sort`, and a list with pairwise different positions (hypothesis of `C22_order`) -/
 example : positionSort [(none, 'd'), (some (-3), 'e'), (some 2, 'b'), (some (-2), 'f'), (some 5, 'c'), (some 1, 'a')]
